@@ -37,6 +37,8 @@ def plan(tier, seed):
     specs = [{"part": "random", "seed": seed, "i": i, "tier": tier} for i in range(n)]
     names = sorted(excs.POOL)
     j = 0
+    for j2 in range(200 if tier == "quick" else 2000):
+        specs.append({"part": "interrupt", "seed": seed, "i": j2, "tier": tier})
     for name in names:
         for depth in range(1, 6):
             for style in (gen.ACT_STYLES if tier == "thorough" else ["with", "ctx_finish", "run_finish", "log_call", "ActionType"]):
@@ -61,7 +63,65 @@ def chain_program(rng, exc, depth, style):
     return [node]
 
 
+def part_interrupt(spec):
+    """A BaseException (think KeyboardInterrupt) comes out of a destination while an end message is being delivered: however the
+    program then leaves the block or finishes again, the action still has exactly one end message."""
+    from eliot import start_action, log_message
+    rng = random.Random("%s:C03:int:%d" % (spec["seed"], spec["i"]))
+    res = {"evals": 1, "nontrivial": [], "counters": {"interrupt_cases": 1}, "violations": [], "sets": {}}
+    tape = Tape()
+    rec = Recorder(tape, "rec")
+    state = {"n": 0, "armed": None}
+
+    def interrupter(m):
+        # placed AFTER the recorder: the message has been recorded when the interrupt strikes
+        if m.get("action_status") in ("succeeded", "failed") and m.get("action_type") == "victim" and state["armed"]:
+            state["armed"] = False
+            raise excs.UserBase("interrupt while the end message is being delivered")
+
+    add_destinations(rec, interrupter)
+    style = rng.choice(["explicit_then_exit", "exit_then_finally", "explicit_twice"])
+    state["armed"] = True
+    got = None
+    try:
+        with start_action(action_type="outer"):
+            if style == "explicit_then_exit":
+                with start_action(action_type="victim") as a:
+                    log_message(message_type="m")
+                    a.finish()  # interrupted; __exit__ will call finish(exc) afterwards
+            elif style == "exit_then_finally":
+                a = start_action(action_type="victim")
+                try:
+                    with a:
+                        log_message(message_type="m")
+                finally:
+                    a.finish()  # a careful program finishing again after the interrupted __exit__
+            else:
+                a = start_action(action_type="victim")
+                try:
+                    a.finish()
+                finally:
+                    a.finish(RuntimeError("again"))
+    except excs.UserBase as e:
+        got = e
+    finally:
+        remove_destination(rec)
+        remove_destination(interrupter)
+    problems = []
+    if got is None:
+        problems.append("the interrupt raised by the destination did not reach the program")
+    ends = [m for m in tape.msgs("rec") if m.get("action_type") == "victim" and m.get("action_status") in ("succeeded", "failed")]
+    if len(ends) != 1:
+        problems.append("%s: the interrupted action logged %d end messages (%s)" % (style, len(ends), [m.get("action_status") for m in ends]))
+    res["nontrivial"].append(h(["interrupt", style]))
+    if problems:
+        res["violations"].append({"msg": problems[0], "mech": None, "detail": {"part": "interrupt", "style": style, "problems": problems}})
+    return res
+
+
 def run_case(spec):
+    if spec["part"] == "interrupt":
+        return part_interrupt(spec)
     rng = random.Random("%s:C03:%s:%d" % (spec["seed"], spec["part"], spec["i"]))
     res = {"evals": 1, "nontrivial": [], "counters": {}, "violations": [], "sets": {"exception_classes_failed": [], "lookup_depths": []}}
     # ---- extractor registrations
@@ -85,7 +145,11 @@ def run_case(spec):
                     # fail with a class that other (possibly failing) extractors are registered for: cycles must not recurse
                     raise excs.make(["ValueError", "KeyError", "UserError", "RuntimeError", "OSError"][len(name) % 5], "extractor for %s failed" % name)
                 raise ExtractorBoom("extractor for %s failed" % name)
-            return {"ext_" + name: [name, len(type(e).__mro__)], "ext_common": name}
+            out = {"ext_" + name: [name, len(type(e).__mro__)], "ext_common": name}
+            if len(name) % 2:
+                # field names eliot itself uses on failed ends: the truthful class name and text must win
+                out.update({"exception": "mine.Other", "reason": "not the real text", "action_status": "succeeded"})
+            return out
         return extractor
 
     for name, kind in regs.items():
